@@ -237,7 +237,10 @@ def gen_case(rng, small: bool = False) -> dict:
         target = units[0]["gid"]
         if kind == "graph" and rng.random() < 0.2:
             target = rng.choice([g["gid"] for g in walk_graphs(units[0])])
-    return {"kind": kind, "units": units, "target": target, "alloc": rng.randrange(4), "mode": mode}
+    case = {"kind": kind, "units": units, "target": target, "alloc": rng.randrange(4), "mode": mode}
+    if rng.random() < 0.35:
+        case["history"] = gen_history(rng, case)
+    return case
 
 
 # =========================================================================== implementation side
@@ -287,42 +290,137 @@ def build(case: dict):
         return gr
 
     roots = [mk_graph(u, 0) for u in case["units"]]
-    return roots, graphs, ids, keep
+    return roots, graphs, ids, (keep, values)
 
 
 def observe(case: dict, graphs: dict, ids: dict) -> dict:
     return {str(gid): [ids.get(id(n), -1) for n in gr] for gid, gr in graphs.items()}
 
 
+def apply_edit_json(case: dict, e: list) -> None:
+    """Effect of an edit on the structure (node orders are taken from the implementation afterwards)."""
+    nodes = [n for u in case["units"] for n in walk_nodes(u)]
+    if e[0] == "rewire":
+        for n in nodes:
+            if n["id"] == e[1]:
+                n["ins"][e[2]] = None if e[3] is None else list(e[3])
+    elif e[0] == "rauw":
+        for n in nodes:
+            n["ins"] = [[e[3], e[4]] if (r is not None and r[0] == e[1] and r[1] == e[2]) else r for r in n["ins"]]
+
+
+def derived_case(case: dict, order: dict) -> dict:
+    """The case as it stands now: current structure, every graph in the order observed on the implementation."""
+    c = _clone(case)
+    c.pop("history", None)
+    for u in c["units"]:
+        for g in walk_graphs(u):
+            pos = {x: i for i, x in enumerate(order[str(g["gid"])])}
+            g["nodes"].sort(key=lambda n: pos.get(n["id"], 1 << 30))
+    return c
+
+
 def run_impl(case: dict) -> dict:
     """Run the real sort on the case; observations: outcome, node order of every graph before/after,
-    ownership (node.graph) afterwards."""
+    ownership (node.graph) afterwards.  With case["history"] = [[edit, ...], ...]: after the first sort every
+    phase applies its edits through the public API and sorts again; obs["phases"] holds, per phase, the case
+    as it stood before that sort (current structure and order) and the observations of that sort."""
     import onnx_ir as ir
-    roots, graphs, ids, keep = build(case)
-    before = observe(case, graphs, ids)
-    outcome, modified = "ok", None
-    try:
-        if case["kind"] == "graph":
-            graphs[case["target"]].sort()
-        elif case["kind"] == "function":
-            f = ir.Function("d", "f", graph=roots[0], attributes=[])
-            f.sort()
-        else:
-            from onnx_ir.passes.common.topological_sort import TopologicalSortPass
-            fs = [ir.Function("d", f"f{i}", graph=r, attributes=[]) for i, r in enumerate(roots[1:])]
-            model = ir.Model(roots[0], ir_version=10, functions=fs)
-            res = TopologicalSortPass()(model)
-            modified = bool(res.modified)
-            if res.model is not model:
-                outcome = "raise:OtherError"
-    except Exception as e:  # noqa: BLE001
-        outcome = "raise:" + common.exn_name(e)
-        for k in type(e).__mro__:
-            if k.__name__ == "PassError" and e.__cause__ is not None:
-                outcome = "raise:" + common.exn_name(e.__cause__)
-    after = observe(case, graphs, ids)
-    owner_ok = all(n.graph is gr for gr in graphs.values() for n in gr)
-    return {"outcome": outcome, "modified": modified, "before": before, "after": after, "owner_ok": owner_ok}
+    roots, graphs, ids, (keep, values) = build(case)
+    node_of = {v: k for k, v in ids.items()}
+    objs = {id(n): n for n in keep if isinstance(n, ir.Node)}
+    node_obj = {nid: objs[pyid] for pyid, nid in ids.items()}
+    state = {}
+
+    def one_sort() -> dict:
+        before = observe(case, graphs, ids)
+        outcome, modified = "ok", None
+        try:
+            if case["kind"] == "graph":
+                graphs[case["target"]].sort()
+            elif case["kind"] == "function":
+                if "f" not in state:
+                    state["f"] = ir.Function("d", "f", graph=roots[0], attributes=[])
+                state["f"].sort()
+            else:
+                from onnx_ir.passes.common.topological_sort import TopologicalSortPass
+                if "model" not in state:
+                    fs = [ir.Function("d", f"f{i}", graph=r, attributes=[]) for i, r in enumerate(roots[1:])]
+                    state["model"] = ir.Model(roots[0], ir_version=10, functions=fs)
+                model = state["model"]
+                res = TopologicalSortPass()(model)
+                modified = bool(res.modified)
+                if res.model is not model:
+                    outcome = "raise:OtherError"
+        except Exception as e:  # noqa: BLE001
+            outcome = "raise:" + common.exn_name(e)
+            for k in type(e).__mro__:
+                if k.__name__ == "PassError" and e.__cause__ is not None:
+                    outcome = "raise:" + common.exn_name(e.__cause__)
+        after = observe(case, graphs, ids)
+        owner_ok = all(n.graph is gr for gr in graphs.values() for n in gr)
+        return {"outcome": outcome, "modified": modified, "before": before, "after": after, "owner_ok": owner_ok}
+
+    obs = one_sort()
+    cur = _clone(case)
+    phases = []
+    for phase in case.get("history", []):
+        for e in phase:
+            if e[0] == "rewire":
+                node_obj[e[1]].replace_input_with(e[2], None if e[3] is None else values[e[3][0]][e[3][1]])
+            elif e[0] == "rauw":
+                values[e[1]][e[2]].replace_all_uses_with(values[e[3]][e[4]])
+            elif e[0] == "move_end":
+                graphs[e[1]].remove(node_obj[e[2]])
+                graphs[e[1]].append(node_obj[e[2]])
+            elif e[0] == "move_before":
+                graphs[e[1]].insert_before(node_obj[e[3]], node_obj[e[2]])
+            apply_edit_json(cur, e)
+        now = derived_case(cur, observe(case, graphs, ids))
+        phases.append({"case": now, "obs": one_sort()})
+    obs["phases"] = phases
+    return obs
+
+
+def obs_sig(obs: dict):
+    return [(o["outcome"], o["after"], o["modified"]) for o in [obs] + [p["obs"] for p in obs.get("phases", [])]]
+
+
+def gen_history(rng, case: dict) -> list:
+    """1-2 phases of edits that add no node to any graph: rewire inputs (possibly creating a cycle or an
+    unsorted order, also inside nested bodies), replace_all_uses_with, move present nodes."""
+    cur = _clone(case)
+    hist = []
+    for _ in range(rng.choice([1, 1, 2])):
+        phase = []
+        for _ in range(rng.choice([1, 1, 2, 3])):
+            u = rng.choice(cur["units"])
+            nodes = list(walk_nodes(u))
+            if not nodes:
+                continue
+            r = rng.random()
+            if r < 0.55:
+                cands = [n for n in nodes if n["ins"]]
+                if not cands:
+                    continue
+                n = rng.choice(cands)
+                p = rng.choice(nodes)
+                ref = None if rng.random() < 0.1 else [p["id"], rng.randrange(p["nout"])]
+                e = ["rewire", n["id"], rng.randrange(len(n["ins"])), ref]
+            elif r < 0.7:
+                p, q = rng.choice(nodes), rng.choice(nodes)
+                e = ["rauw", p["id"], rng.randrange(p["nout"]), q["id"], rng.randrange(q["nout"])]
+            else:
+                gs = [g for g in walk_graphs(u) if len(g["nodes"]) >= 2]
+                if not gs:
+                    continue
+                g = rng.choice(gs)
+                a, b = rng.sample(g["nodes"], 2)
+                e = ["move_end", g["gid"], a["id"]] if rng.random() < 0.5 else ["move_before", g["gid"], a["id"], b["id"]]
+            apply_edit_json(cur, e)
+            phase.append(e)
+        hist.append(phase)
+    return hist
 
 
 # =========================================================================== oracle (the property itself)
@@ -593,6 +691,16 @@ def _remove_node(case: dict, nid: int) -> dict | None:
             find_graph(c, c["target"])
     except KeyError:
         return None
+    if "history" in c:
+        def alive(e):
+            if e[0] == "rewire":
+                return e[1] not in dead and (e[3] is None or e[3][0] not in dead)
+            if e[0] == "rauw":
+                return e[1] not in dead and e[3] not in dead
+            if e[0] == "move_end":
+                return e[2] not in dead
+            return e[2] not in dead and e[3] not in dead
+        c["history"] = [[e for e in ph if alive(e)] for ph in c["history"]]
     return c
 
 
@@ -608,6 +716,17 @@ def shrink(case: dict, fails) -> dict:
                 del c2["units"][i]
                 if fails(c2):
                     cur, changed = c2, True
+        for k in range(len(cur.get("history", [])) - 1, -1, -1):
+            c2 = _clone(cur)
+            del c2["history"][k]
+            if fails(c2):
+                cur, changed = c2, True
+                continue
+            for j in range(len(cur["history"][k]) - 1, -1, -1):
+                c2 = _clone(cur)
+                del c2["history"][k][j]
+                if fails(c2):
+                    cur, changed = c2, True
         for nid in [n["id"] for u in cur["units"] for n in walk_nodes(u)]:
             c2 = _remove_node(cur, nid)
             if c2 is not None and fails(c2):
@@ -616,6 +735,15 @@ def shrink(case: dict, fails) -> dict:
             for n in list(walk_nodes(u)):
                 for i in range(len(n["ins"]) - 1, -1, -1):
                     old = n["ins"][i]
+                    if cur.get("history"):          # keep the indices used by rewire edits valid
+                        if old is None:
+                            continue
+                        n["ins"][i] = None
+                        if fails(cur):
+                            changed = True
+                        else:
+                            n["ins"][i] = old
+                        continue
                     del n["ins"][i]
                     if fails(cur):
                         changed = True
@@ -638,11 +766,14 @@ def shrink(case: dict, fails) -> dict:
 
 
 def check_case(case: dict) -> tuple[dict, list[str]]:
-    """Implementation run + oracle + in-process determinism (another allocation order)."""
+    """Implementation run + oracle (on the first sort and on every later sort of the history, each against
+    the structure and order current at that moment) + in-process determinism (another allocation order)."""
     obs = run_impl(case)
     bad = oracle(case, obs)
+    for k, ph in enumerate(obs["phases"]):
+        bad += [f"sort #{k + 2} of the history (after edits {case['history'][k]}): {b}" for b in oracle(ph["case"], ph["obs"])]
     obs2 = run_impl(dict(case, alloc=(case.get("alloc", 0) + 1) % 4))
-    if (obs2["outcome"], obs2["after"], obs2["modified"]) != (obs["outcome"], obs["after"], obs["modified"]):
+    if obs_sig(obs2) != obs_sig(obs):
         bad.append("result depends on object allocation order, not only on structure and previous order")
     return obs, bad
 
@@ -757,6 +888,7 @@ def run(ck) -> None:
     n_cases = 600 if not ck.thorough else 12000
     cases: list[tuple[dict, dict]] = []
     failures: list[tuple[dict, list[str]]] = []
+    origin: list[dict] = []          # the (possibly multi-step) case each compared sort comes from
     todo = load_corpus()
     ck.coverage["corpus_cases"] = len(todo)
     for i in range(n_cases):
@@ -768,6 +900,18 @@ def run(ck) -> None:
         if bad:
             failures.append((case, bad))
         cases.append((case, obs))
+        origin.append(case)
+        for k, ph in enumerate(obs["phases"]):
+            # later sorts of the history: the model is applied to the structure/order current at that moment
+            ck.count()
+            ck.hist("history", "sort_after_edits")
+            for e in case["history"][k]:
+                ck.hist("history_edits", e[0])
+            ck.hist("outcomes", "later:" + ph["obs"]["outcome"])
+            if ph["obs"]["before"] != ph["obs"]["after"] or ph["obs"]["outcome"] != "ok":
+                ck.nontriv(("later", ph["case"]))
+            cases.append((ph["case"], ph["obs"]))
+            origin.append(case)
         if i in (0, 1) or (len(ck.coverage["samples"]) < 5 and i > 20 and obs["outcome"] != "ok"):
             ck.sample({"case": case, "before": obs["before"], "after": obs["after"], "outcome": obs["outcome"]})
     ck.coverage["traces_validated_against_impl"] = len(cases)
@@ -780,11 +924,13 @@ def run(ck) -> None:
     for i in mism[:3]:
         case, obs = cases[i]
         ck.broken("correspondence:sort_graph",
-                  json.dumps({"case": case, "impl_outcome": obs["outcome"], "impl_after": obs["after"],
+                  json.dumps({"case": case, "from_history_case": origin[i] if origin[i] is not case else None,
+                              "impl_outcome": obs["outcome"], "impl_after": obs["after"],
                               "impl_modified": obs["modified"]}))
     # ---- determinism across processes: other hash seeds and allocation orders must give identical results
     seeds = ["1", "4242"] if not ck.thorough else ["1", "2", "4242", "99991", "random", "random"]
-    subset = [c for c, _ in cases] if ck.thorough else [c for c, _ in cases[:250]]
+    firsts = [(c, o) for c, o in cases if "phases" in o]          # one entry per generated case (with its history)
+    subset = [c for c, _ in firsts] if ck.thorough else [c for c, _ in firsts[:250]]
     for k, hs in enumerate(seeds):
         try:
             others = run_in_subprocess(subset, hs, k + 1)
@@ -793,8 +939,8 @@ def run(ck) -> None:
             break
         ck.count(len(subset))
         ck.hist("determinism_reruns", f"PYTHONHASHSEED={hs}", len(subset))
-        for (case, obs), o2 in zip(cases, others):
-            if (o2["outcome"], o2["after"], o2["modified"]) != (obs["outcome"], obs["after"], obs["modified"]):
+        for (case, obs), o2 in zip(firsts, others):
+            if json.loads(json.dumps(obs_sig(o2))) != json.loads(json.dumps(obs_sig(obs))):
                 failures.append((case, [f"result differs under PYTHONHASHSEED={hs} / another allocation order: "
                                         f"{obs['after']} vs {o2['after']}"]))
                 break
